@@ -42,6 +42,8 @@ type PipeConn struct {
 	closed bool
 	// OnRead / OnWrite observe completed operations (after the fact, outside locks)
 	OnWrite func(b []byte)
+	// EOFWithData: Read returns io.EOF together with the last bytes once the writer has closed (legal for an io.Reader)
+	EOFWithData bool
 }
 
 // NewPipe returns two connected ends.
@@ -65,7 +67,12 @@ func (c *PipeConn) Read(p []byte) (int, error) {
 			n := copy(p, h.buf)
 			h.buf = h.buf[n:]
 			h.signal()
+			// like a QUIC stream whose FIN came with the last frame: the final bytes and io.EOF in one call
+			eof := c.EOFWithData && h.wclose && len(h.buf) == 0
 			h.mu.Unlock()
+			if eof {
+				return n, io.EOF
+			}
 			return n, nil
 		}
 		if h.wclose {
